@@ -106,3 +106,13 @@ pub fn scaled(x: f64, scale: f64) -> i64 {
         y as i64
     }
 }
+
+/// runs one scenario; a panic of the code under test is data: it becomes a `Panic` event (which no
+/// specification action accepts) instead of taking the whole harness run down
+pub fn guarded<F: FnOnce(&mut Out)>(out: &mut Out, f: F) {
+    let r = std::panic::catch_unwind(std::panic::AssertUnwindSafe(|| f(out)));
+    if let Err(e) = r {
+        let msg = e.downcast_ref::<String>().cloned().or_else(|| e.downcast_ref::<&str>().map(|s| s.to_string())).unwrap_or_default();
+        out.event(json!({"ev": "Panic", "msg": msg}));
+    }
+}
